@@ -42,6 +42,23 @@ def Serial.run (rcOf : Nat → Int) : Serial → List Op → Serial
   | s, [] => s
   | s, op :: ops => Serial.run rcOf (Serial.call rcOf s op) ops
 
+theorem Serial.run_append (rcOf : Nat → Int) (s : Serial) (a b : List Op) :
+    Serial.run rcOf s (a ++ b) = Serial.run rcOf (Serial.run rcOf s a) b := by
+  induction a generalizing s with
+  | nil => rfl
+  | cons x xs ih => simp only [List.cons_append, Serial.run]; exact ih _
+
+/-- the API call the main thread is inside of -/
+def mainPending : MPc → Option Op
+  | .submitLock d => some (.submit d)
+  | .deqLock => some .dequeue
+  | .deqWait _ => some .dequeue
+  | .statusLock => some .getStatus
+  | .destroyLock => some .destroy
+  | .join _ => some .destroy
+  | .idle => none
+  | .finished => none
+
 /-! ### "the call returns" -/
 
 /-- `StaysInCall cfg s cs s'`: `cs` is a strict execution (every choice enabled, no spurious wake-up) from `s`
